@@ -34,6 +34,14 @@ runtime of the next incarnation — seeded with the next element of the random s
 `Module::reset` on it; an inactive module ignores messages and wake-ups (no `Harness::exec`); the
 `ModuleRestartEvent` sets `active` and replays the start stage.  `seeds` records (ghost) the seed of every runtime.
 
+Links may have a channel with latency, jitter and a bitrate: `transmit` is `Channel::send_message` (busy -> queue,
+policy `Queue(None)`; idle -> probe fires (`xmit`), jitter drawn, exit event, busy until the transmission is over),
+`unbusy`/`drain` is `Channel::unbusy`; `send` with a delay is `send_in` (`KEvent.leave`: the gate chain is walked when
+the event fires, and the message is dropped if its sender is no longer active).  Tasks of a module can signal each
+other through semaphores (`sig`, `wait`; FIFO wait list, a woken task joins the local run queue).
+Emissions made during `at_sim_end` stay in `buf` (`SimLifecycle::at_sim_end` does not call `buf_process`); `Globals`
+at the end of the file models what a dropped simulation leaves in the process and what the next one makes of it.
+
 The canonical trace (`Obs`) is what the harness logs: time, module PATH, what, who, peer path, numbers —
 no identifiers.
 -/
@@ -62,8 +70,10 @@ def Ambient.after (a : Ambient) (n k : Nat) : Ambient :=
 inductive Step
   | draw
   | draw32
-  | send (dst : String) (kind : Nat)
+  | send (dst : String) (kind : Nat) (delay : Nat)   -- `send` (delay 0) / `send_in`
   | sched (delay kind : Nat)
+  | sig (sem : String)           -- `Semaphore::add_permits(1)` on a semaphore of the module
+  | wait (sem : String)          -- `acquire().await` + `forget()`  (tasks only)
   | spawn (task : String)
   | sleep (d : Nat)
   | sel (ds : List Nat)
@@ -80,7 +90,7 @@ deriving Repr, DecidableEq
 structure Link where
   src : String
   dst : String
-  chan : Option (Nat × Nat)      -- latency, jitter bound; `none` = no channel
+  chan : Option (Nat × Nat × Nat)   -- latency, jitter bound, transmission time of a message; `none` = no channel
 deriving Repr
 
 structure ModSpec where
@@ -118,6 +128,8 @@ inductive KEvent
   | exitConn (mod : Nat) (m : Msg)    -- MessageExitingConnection whose gate chain ends at `mod`
   | wakeup (mod : Nat)                -- AsyncWakeupEvent
   | restart (mod : Nat)               -- ModuleRestartEvent
+  | leave (mod li : Nat) (m : Msg)    -- MessageExitingConnection at the sender's own gate (`send_in`): link `li` of module `mod`
+  | unbusy (li : Nat)                 -- ChannelUnbusyNotif of the channel of link `li`
 deriving Repr, DecidableEq
 
 /-- a `Sleep`: id, deadline, `handle.is_some()` -/
@@ -131,6 +143,7 @@ inductive Wait
   | run                          -- not started / finished
   | sleeping (s : Sl)
   | selecting (ss : List Sl)
+  | waiting (sem : String) (granted : Bool)   -- in the wait list of a semaphore / permit assigned, woken
 deriving Repr
 
 structure TaskRt where
@@ -154,6 +167,13 @@ structure ModRt where
   active : Bool := true                -- `ModuleContext::active`
   shutdownReq : Option (Option Nat) := none   -- `ModuleContext::shutdown_task` (restart time)
   inc : Nat := 0                       -- incarnation = number of `Module::reset` calls (the harness counts them)
+  sems : List (String × Nat × List Nat) := []   -- semaphores of the module: name, free permits, waiting tasks (FIFO)
+deriving Repr
+
+/-- a `Channel`: busy flag and the FIFO buffer (policy `Queue(None)`) of (message, destination module) -/
+structure ChanRt where
+  busy : Bool := false
+  queue : List (Msg × Nat) := []
 deriving Repr
 
 structure Sim where
@@ -166,6 +186,7 @@ structure Sim where
   nextSleep : Nat                      -- `Sleep::new` calls so far
   trace : List Obs                     -- newest first
   fault : Option String
+  chans : List ChanRt := []                -- one per link (index into `Net.links`)
   dropped : List (String × String) := []   -- (module path, task tag) of unfinished tasks dropped by a shutdown
   seeds : List (String × Nat) := []        -- ghost: (module path, `RngSeed` of a tokio runtime built for it), in build order
 
@@ -211,8 +232,12 @@ def senderPath (ms : List ModRt) : Option Nat → String
     | some m => m.path
     | none => "-"
 
-def findLink (ls : List Link) (src dst : String) : Option Link :=
-  ls.find? (fun l => l.src = src ∧ l.dst = dst)
+def linkIndex (ls : List Link) (src dst : String) : Option Nat :=
+  match ls with
+  | [] => none
+  | l :: r => if l.src = src ∧ l.dst = dst then some 0 else (linkIndex r src dst).map (· + 1)
+
+def Sim.updChan (s : Sim) (li : Nat) (f : ChanRt → ChanRt) : Sim := { s with chans := updAt f li s.chans }
 
 /-- the emission counter of the harness -/
 def Sim.bump (s : Sim) : Sim := { s with serial := s.serial + 1 }
@@ -235,22 +260,71 @@ def requestShutdown (s : Sim) (mi : Nat) (path who : String) (d : Option Nat) : 
         (fun m => { m with shutdownReq := some (d.map (s.now + ·)) })
     else s
 
+/-- where a channel or a gate chain puts its events: straight into the event set (the code runs inside a kernel
+    event: `ChannelUnbusyNotif`, `MessageExitingConnection`) or onto `BUF_CTX.events` (inside a module event) -/
+def Sim.emit (s : Sim) (direct : Bool) (ev : KEvent) (t : Nat) : Sim :=
+  if direct then s.schedule ev t else s.push ev t
+
+/-- `Channel::send_message` on an idle channel: the probe fires (the harness logs `xmit`), the jitter is drawn (only
+    if the metric has one), the exit event is scheduled, and — if the transmission takes time — the channel becomes
+    busy and schedules its `ChannelUnbusyNotif` -/
+def startTx (s : Sim) (li : Nat) (src dst : String) (lat jit tx : Nat) (m : Msg) (di : Nat) (direct : Bool) : Sim :=
+  let s1 := s.log "-" "xmit" src dst [m.serial]
+  let s2 := if jit = 0 then s1 else s1.pop.2
+  let j := if jit = 0 then 0 else s1.pop.1
+  let s3 := s2.emit direct (.exitConn di m) (s.now + lat + tx + j)
+  if tx = 0 then s3
+  else (s3.updChan li (fun c => { c with busy := true })).emit direct (.unbusy li) (s.now + tx)
+
+/-- `Channel::send_message`: a busy channel queues the message (policy `Queue(None)`), an idle one starts the
+    transmission; a link without channel delivers at once -/
+def transmit (net : Net) (s : Sim) (li : Nat) (m : Msg) (di : Nat) (direct : Bool) : Sim :=
+  match net.links[li]?, s.chans[li]? with
+  | some l, some c =>
+    match l.chan with
+    | none => s.emit direct (.deliver di m) s.now
+    | some (lat, jit, tx) =>
+      if c.busy then s.updChan li (fun c => { c with queue := c.queue ++ [(m, di)] })
+      else startTx s li l.src l.dst lat jit tx m di direct
+  | _, _ => s
+
+/-- a message leaves its sender through link `li` (`MessageExitingConnection::handle_with_sink` starting at the
+    sender's gate): dropped if the gate's owner is not active -/
+def sendVia (net : Net) (s : Sim) (mi li : Nat) (m : Msg) (direct : Bool) : Sim :=
+  match s.mods[mi]?, net.links[li]? with
+  | some sender, some l =>
+    if sender.active then
+      match modIndex s.mods l.dst with
+      | some di => transmit net s li m di direct
+      | none => s
+    else s
+  | _, _ => s
+
+/-- `Semaphore::add_permits(1)`: the first waiter gets the permit and is woken (we are inside the runtime: the
+    task goes to the local run queue), else the permit is stored -/
+def signalSem (m : ModRt) (name : String) : ModRt :=
+  match m.sems.find? (fun x => x.1 = name) with
+  | none => { m with sems := m.sems ++ [(name, 1, [])] }
+  | some (_, k, []) => { m with sems := m.sems.map (fun x => if x.1 = name then (name, k + 1, []) else x) }
+  | some (_, k, w :: r) =>
+    { m with sems := m.sems.map (fun x => if x.1 = name then (name, k, r) else x),
+             tasks := updAt (fun t => { t with wait := .waiting name true }) w m.tasks,
+             localq := m.localq ++ [w] }
+
 /-- the steps that handlers and tasks share (`step_sync` of the harness) -/
 def stepSync (net : Net) (s : Sim) (mi : Nat) (path : String) (ttl : Nat) (who : String) : Step → Sim
   | .draw => (s.pop.2).log path "draw" who "-" [s.pop.1]
   | .draw32 => (s.pop.2).log path "draw32" who "-" [s.pop.1]
-  | .send dst kind =>
+  | .send dst kind d =>
     if ttl = 0 then s else
-    match findLink net.links path dst, modIndex s.mods dst with
-    | some l, some di =>
-      let s1 := s.bump.log path "send" who dst [kind, ttl - 1, s.serial + 1]
-      match l.chan with
-      | none => s1.push (.deliver di (mkMsg s mi kind ttl)) s.now
-      | some (lat, jit) =>
-        -- `Channel::send_message`: the jitter is drawn only if the metric has one
-        if jit = 0 then s1.push (.exitConn di (mkMsg s mi kind ttl)) (s.now + lat)
-        else (s1.pop.2).push (.exitConn di (mkMsg s mi kind ttl)) (s.now + lat + s1.pop.1)
-    | _, _ => s
+    match linkIndex net.links path dst with
+    | some li =>
+      let s1 := s.bump.log path "send" who dst [kind, ttl - 1, s.serial + 1, d]
+      -- `buf_send_at`: a delayed send buffers the exit from the sender's gate, an undelayed one walks the gate
+      -- chain (and the channel) at once
+      if d = 0 then sendVia net s1 mi li (mkMsg s mi kind ttl) false
+      else s1.push (.leave mi li (mkMsg s mi kind ttl)) (s.now + d)
+    | none => s
   | .sched d kind =>
     if ttl = 0 then s else
     -- `buf_schedule_at` leaves `sender_module_id` at `ModuleId::NULL`
@@ -261,6 +335,8 @@ def stepSync (net : Net) (s : Sim) (mi : Nat) (path : String) (ttl : Nat) (who :
   | .sel _ => s
   | .shut => requestShutdown s mi path who none
   | .restart d => requestShutdown s mi path who (some d)
+  | .sig name => (s.log path "sig" who "-" []).updMod mi (fun m => signalSem m name)
+  | .wait _ => s
 
 def findTask (ts : List (String × List Step)) (tag : String) : Option (List Step) :=
   (ts.find? (fun t => t.1 = tag)).map (·.2)
@@ -351,6 +427,23 @@ def setSelecting (m : ModRt) (ti : Nat) (r : List Step) (ss : List Sl) : ModRt :
 def finishTask (m : ModRt) (ti : Nat) : ModRt :=
   m.updTask ti (fun t => { t with prog := [], wait := .run })
 
+/-- free permits of semaphore `name` of a module -/
+def semPermits (m : ModRt) (name : String) : Nat :=
+  match m.sems.find? (fun x => x.1 = name) with
+  | some (_, k, _) => k
+  | none => 0
+
+/-- `acquire()` finds a free permit -/
+def takePermit (m : ModRt) (name : String) : ModRt :=
+  { m with sems := m.sems.map (fun x => if x.1 = name then (x.1, x.2.1 - 1, x.2.2) else x) }
+
+/-- `acquire()` finds none: the task joins the semaphore's wait list -/
+def enqueueWaiter (m : ModRt) (ti : Nat) (r : List Step) (name : String) : ModRt :=
+  let m := m.updTask ti (fun t => { t with prog := r, wait := .waiting name false })
+  match m.sems.find? (fun x => x.1 = name) with
+  | none => { m with sems := m.sems ++ [(name, 0, [ti])] }
+  | some _ => { m with sems := m.sems.map (fun x => if x.1 = name then (x.1, x.2.1, x.2.2 ++ [ti]) else x) }
+
 /-- run task `ti` from `prog` on until it blocks -/
 def runTask (net : Net) (a : Ambient) (mi : Nat) (path tag : String) (ti ttl : Nat) : Sim → List Step → Sim
   | s, [] => s.updMod mi (fun m => finishTask m ti)
@@ -361,6 +454,12 @@ def runTask (net : Net) (a : Ambient) (mi : Nat) (path tag : String) (ti ttl : N
     match selPoll (s.allocSleep ds.length) mi path tag ti (mkSleeps a s.now s.nextSleep ds) with
     | (s, _, some _) => runTask net a mi path tag ti ttl s r
     | (s, ss, none) => s.updMod mi (fun m => setSelecting m ti r ss)
+  | s, .wait name :: r =>
+    match s.mods[mi]? with
+    | none => s
+    | some m =>
+      if semPermits m name = 0 then s.updMod mi (fun m => enqueueWaiter m ti r name)
+      else runTask net a mi path tag ti ttl ((s.updMod mi (fun m => takePermit m name)).log path "got" tag "-" []) r
   | s, .spawn _ :: r => runTask net a mi path tag ti ttl s r
   | s, st :: r => runTask net a mi path tag ti ttl (stepSync net s mi path ttl tag st) r
 
@@ -378,6 +477,9 @@ def pollTask (net : Net) (a : Ambient) (s : Sim) (mi : Nat) (path : String) (ti 
       match selPoll s mi path t.tag ti ss with
       | (s, _, some _) => runTask net a mi path t.tag ti t.ttl s t.prog
       | (s, ss, none) => s.updMod mi (fun m => setSelecting m ti t.prog ss)
+    | .waiting _ granted =>
+      -- woken by `add_permits`: the permit is already assigned
+      if granted then runTask net a mi path t.tag ti t.ttl (s.log path "got" t.tag "-" []) t.prog else s
 
 /-- `Core::next_task`: local queue first, except on every 31st tick -/
 def nextTask (tick : Nat) (localq inject : List Nat) : Option (Nat × List Nat × List Nat) :=
@@ -467,7 +569,9 @@ def seedStage (s : Sim) (mi : Nat) (path : String) (seeded : Bool) : Sim :=
 /-- queued tasks + 1 (the tick that finds nothing) -/
 def execFuel (s : Sim) (mi : Nat) : Nat :=
   match s.mods[mi]? with
-  | some m => m.localq.length + m.inject.length + 1
+  | some m =>
+    -- queued tasks + 1 (the tick that finds nothing) + the polls that `sig` steps of running tasks can cause
+    m.localq.length + m.inject.length + 1 + (m.tasks.map (fun t => t.prog.length)).sum
   | none => 0
 
 /-- `ModuleRef::deactivate`: schedule the wake-up (straight into the event set, before the flush) -/
@@ -489,12 +593,14 @@ def dropWait (p : List Timer.Slot) : Wait → List Timer.Slot
   | .run => p
   | .sleeping sl => if sl.reg then Timer.removeEntry p sl.deadline sl.id else p
   | .selecting ss => ss.foldl (fun p sl => if sl.reg then Timer.removeEntry p sl.deadline sl.id else p) p
+  | .waiting _ _ => p
 
 /-- `Rt::shutdown`: the module's tokio runtime is dropped and with it all its tasks (in an order that is the
     subject of finding F-C04a; the resulting state does not depend on it); a fresh `Core` starts at tick 0 -/
 def killTasks (m : ModRt) : ModRt :=
   { m with pending := m.tasks.foldl (fun p t => dropWait p t.wait) m.pending,
            tasks := m.tasks.map (fun t => { t with prog := [], wait := .run }),
+           sems := m.sems.map (fun x => (x.1, x.2.1, [])),     -- a dropped `Acquire` leaves the wait list
            localq := [], inject := [], tick := 0 }
 
 def unfinishedTags (m : ModRt) : List (String × String) :=
@@ -556,6 +662,23 @@ def moduleEvent (net : Net) (a : Ambient) (s : Sim) (mi : Nat) (cb : Callback) (
 
 def Sim.setFes (s : Sim) (f : FES.State) : Sim := { s with fes := f }
 
+/-- the loop of `Channel::unbusy`: start queued messages until the channel is busy again or the buffer is empty -/
+def drain (net : Net) (li : Nat) : Nat → Sim → Sim
+  | 0, s => s
+  | fuel + 1, s =>
+    match s.chans[li]? with
+    | none => s
+    | some c =>
+      if c.busy then s
+      else
+        match c.queue with
+        | [] => s
+        | (m, di) :: r => drain net li fuel (transmit net (s.updChan li (fun c => { c with queue := r })) li m di true)
+
+/-- `ChannelUnbusyNotif` -> `Channel::unbusy` (fuel = queued messages + 1) -/
+def unbusy (net : Net) (s : Sim) (li : Nat) : Sim :=
+  drain net li (((s.chans[li]?).map (·.queue.length)).getD 0 + 1) (s.updChan li (fun c => { c with busy := false }))
+
 /-- `NetEvents::handle` -/
 def dispatch (net : Net) (a : Ambient) (s : Sim) : Option KEvent → Sim
   | none => { s with fault := some "no-such-event" }
@@ -563,6 +686,8 @@ def dispatch (net : Net) (a : Ambient) (s : Sim) : Option KEvent → Sim
   | some (KEvent.wakeup mi) => moduleEvent net a s mi .wakeup true
   | some (KEvent.restart mi) => moduleEvent net a s mi .restart true
   | some (KEvent.exitConn mi m) => s.schedule (.deliver mi m) s.now
+  | some (KEvent.leave mi li m) => sendVia net s mi li m true
+  | some (KEvent.unbusy li) => unbusy net s li
 
 /-- `Runtime::dispatch_event`: the next event is the one the abstract event set (C01/C03) yields;
     `none` when the future event set is empty -/
@@ -595,7 +720,7 @@ def simEnd (net : Net) (a : Ambient) (s : Sim) : Sim :=
 def init (net : Net) (a : Ambient) (stream : List Nat) : Sim :=
   { mods := net.mods.map (fun m => { path := m.path, id := a.modId m.cidx, ttl0 := m.ttl }),
     fes := FES.init, evs := [], buf := [], stream := stream, serial := 0, nextSleep := 0,
-    trace := [], fault := none, dropped := [], seeds := [] }
+    trace := [], fault := none, chans := net.links.map (fun _ => {}), dropped := [], seeds := [] }
 
 structure Result where
   trace : List Obs          -- oldest first
@@ -609,22 +734,76 @@ structure Result where
   seeds : List (String × Nat)           -- the tokio `RngSeed`s, per runtime built
 deriving Repr
 
-def finalSim (net : Net) (a : Ambient) (stream : List Nat) (fuel : Nat) : Sim × Nat :=
-  let s := simStart net a (init net a stream)
-  let r := loop net a fuel s 0
+/-- `Runtime::run` from a built simulation `s0`: start phase, main loop, end phase -/
+def finalSimFrom (net : Net) (a : Ambient) (fuel : Nat) (s0 : Sim) : Sim × Nat :=
+  let r := loop net a fuel (simStart net a s0) 0
   match r.1.fault with
   | some _ => r
   | none => (simEnd net a r.1, r.2)
 
+def finalSim (net : Net) (a : Ambient) (stream : List Nat) (fuel : Nat) : Sim × Nat :=
+  finalSimFrom net a fuel (init net a stream)
+
 def unfinishedOf (ms : List ModRt) : List (String × String) :=
   ms.flatMap (fun m => (m.tasks.filter (fun t => !t.finished)).map (fun t => (m.path, t.tag)))
 
-/-- `Runtime::run` -/
-def run (net : Net) (a : Ambient) (stream : List Nat) (fuel : Nat) : Result :=
-  let r := finalSim net a stream fuel
+def resultOf (r : Sim × Nat) : Result :=
   { trace := r.1.trace.reverse, time := r.1.now, events := r.2, left := FES.len r.1.fes,
     fault := r.1.fault, rest := r.1.stream, sleeps := r.1.nextSleep,
     unfinished := r.1.dropped ++ unfinishedOf r.1.mods, seeds := r.1.seeds }
+
+/-- `Runtime::run` -/
+def run (net : Net) (a : Ambient) (stream : List Nat) (fuel : Nat) : Result :=
+  resultOf (finalSim net a stream fuel)
+
+/-! ### what a simulation leaves behind in the process, and what the next one makes of it
+
+Every process-wide static of des: `BUF_CTX` (`events`: emissions that were never flushed — everything a module or
+a task emits during `at_sim_end`, because `SimLifecycle::at_sim_end` does not call `buf_process`; `globals`),
+`MOD_CTX`, the clock `SIMTIME`, the generator `RNG`, the counters `MODULE_ID` / `SLEEP_ID`.  (tokio's thread-local
+context RNG is re-seeded from the runtime's seed generator on every `block_on` / `enter`, so nothing of it survives.) -/
+
+structure Globals where
+  buf : List (KEvent × Nat)      -- `BUF_CTX.events`
+  bufGlobals : Bool              -- `BUF_CTX.globals.is_some()`
+  modCtx : Option Nat            -- `MOD_CTX`
+  clock : Nat                    -- `SIMTIME`
+  rng : Option (List Nat)        -- `RNG`
+  modIds : Nat                   -- how far `MODULE_ID` has counted
+  sleepIds : Nat                 -- how far `SLEEP_ID` has counted
+
+/-- a fresh process -/
+def Globals.fresh : Globals := ⟨[], false, none, 0, none, 0, 0⟩
+
+/-- the process after `Runtime::run` returned the simulation in state `s` (built on top of `g`), before it is dropped -/
+def Globals.afterRun (g : Globals) (net : Net) (s : Sim) : Globals :=
+  { buf := s.buf, bufGlobals := true, modCtx := none, clock := s.now, rng := some s.stream,
+    modIds := g.modIds + net.mods.length, sleepIds := g.sleepIds + s.nextSleep }
+
+/-- dropping the `Sim`: `SimStaticsGuard::drop` = `buf_drop()` (`*ctx = BufferContext::new()`) + `module_ctx_drop()` -/
+def Globals.simDropped (g : Globals) : Globals := { g with buf := [], bufGlobals := false, modCtx := none }
+
+/-- `Sim::new` -> `SimStaticsGuard::new` -> `buf_init`: link the globals, reset `MOD_CTX`, reset the clock -/
+def Globals.simNew (g : Globals) : Globals := { g with bufGlobals := true, modCtx := none, clock := 0 }
+
+/-- `Builder::seeded(seed).build`: `SimTime::set_now(start_time)`, install the RNG -/
+def Globals.built (g : Globals) (stream : List Nat) : Globals := { g with clock := 0, rng := some stream }
+
+/-- the simulation that is built in a process whose previous simulation left `g` (and has been dropped: a second
+    `Sim::new` blocks on the statics guard until then): module ids continue the counter, the emission buffer, the
+    clock and the generator are what `simDropped`, `simNew` and `built` make of the leftovers -/
+def initFrom (g : Globals) (net : Net) (a : Ambient) (stream : List Nat) : Sim :=
+  let g' := (g.simDropped.simNew).built stream
+  { init net (a.after g.modIds g.sleepIds) stream with
+    buf := g'.buf, fes := { FES.init with cur := g'.clock }, stream := g'.rng.getD [] }
+
+/-- `Runtime::run` of a simulation built on the leftovers `g`; its sleeps continue `SLEEP_ID` -/
+def runFrom (g : Globals) (net : Net) (a : Ambient) (stream : List Nat) (fuel : Nat) : Result :=
+  resultOf (finalSimFrom net (a.after g.modIds g.sleepIds) fuel (initFrom g net a stream))
+
+/-- the seeded defect C04-r2-1 as a model variant: `buf_drop` keeps `BUF_CTX.events` -/
+def initFromKeepingBuffer (g : Globals) (net : Net) (a : Ambient) (stream : List Nat) : Sim :=
+  { init net (a.after g.modIds g.sleepIds) stream with buf := g.buf }
 
 /-! ### module-tree order (`ModuleTree::add`), on paths; used to build `Net.mods` -/
 
